@@ -82,12 +82,25 @@ def controller(sub, worker, log, gates, chooser, stop, order, stats, force_after
             if forced:
                 stats["forced_releases"] = stats.get("forced_releases", 0) + 1
             choice = chooser(sorted(held), ev)
-            released.add(choice)
-            order.append(choice)
-            (Path(gates) / gate_name(choice)).touch()
+            batch = list(choice) if isinstance(choice, (list, tuple)) else [choice]
+            if len(batch) > 1:
+                # release several bodies at once while the event-loop thread is briefly busy (as it is
+                # whenever a callback takes time, e.g. pickling the next job), so that their completions
+                # reach the loop in one asyncio.wait wake-up
+                stats["batches"] = stats.get("batches", 0) + 1
+                try:
+                    sub.loop.call_soon_threadsafe(time.sleep, 0.4)
+                    time.sleep(0.05)
+                except Exception:  # noqa: BLE001
+                    pass
+            for c in batch:
+                released.add(c)
+                order.append(c)
+                (Path(gates) / gate_name(c)).touch()
             t0 = time.time()
             while not stop.is_set() and time.time() - t0 < 30:
-                if any(e.get("term") == choice and e["ev"] in ("end", "fail") for e in evlog.read(log)):
+                evs = evlog.read(log)
+                if all(any(e.get("term") == c and e["ev"] in ("end", "fail") for e in evs) for c in batch):
                     break
                 time.sleep(0.002)
             last_progress = time.time()
